@@ -76,6 +76,7 @@ def parse_sink(tok):
 
 def parse_src(tok):
     if tok[0] in "wr": return (tok[0], int(tok[1:]))
+    if tok[0] in "sy": return ("r", int(tok[1:]))       # unchecked raw pointers: a raw value of the vector's own type
     v, i, d = tok[1:].split("."); return ("l", int(v), int(i), int(d))
 
 class Shadow:
